@@ -112,12 +112,13 @@ type Result struct {
 
 // Run executes one plan.
 type Run struct {
-	Plan  *Plan
-	Prop  string
-	Env   *Env
-	M     *model.Store
-	Dir   string
-	stats *Stats
+	reqCount int64 // requests sent so far (decides the addressing style under HostBase)
+	Plan     *Plan
+	Prop     string
+	Env      *Env
+	M        *model.Store
+	Dir      string
+	stats    *Stats
 
 	viol    *Violation
 	foreign []*Violation
